@@ -861,8 +861,7 @@ Proof.
   fold (is_edge p c e). destruct (is_edge p c e) eqn:Ee; simpl.
   - apply is_edge_true in Ee. destruct Ee as [Hs _].
     assert (Hf : Nat.eqb p j = false) by (apply Nat.eqb_neq; lia).
-    assert (He : src_is j e = false) by (unfold src_is; rewrite Hs; exact Hf).
-    rewrite Hf, He. reflexivity.
+    unfold src_is. simpl. rewrite Hs, Hf. reflexivity.
   - rewrite IH. reflexivity.
 Qed.
 
@@ -871,7 +870,7 @@ Lemma edge_added_filter_other : forall d p c m j, j <> p ->
 Proof.
   intros d p c m j Hne. unfold edge_added. destruct (has_edge d p c).
   - apply add_motif_filter_other. exact Hne.
-  - rewrite filter_app. simpl.
+  - rewrite filter_app. unfold src_is at 2. simpl.
     assert (Hf : Nat.eqb p j = false) by (apply Nat.eqb_neq; lia).
     rewrite Hf. apply app_nil_r.
 Qed.
@@ -883,9 +882,8 @@ Proof.
   intros p c m l. induction l as [|e l IH]; simpl; intro Hex; [discriminate|].
   fold (is_edge p c e). destruct (is_edge p c e) eqn:Ee; simpl.
   - apply is_edge_true in Ee. destruct Ee as [Hs _].
-    assert (He : src_is p e = true) by (unfold src_is; rewrite Hs; apply Nat.eqb_refl).
-    rewrite Nat.eqb_refl, He. simpl. rewrite <- !app_assoc. apply Permutation_app_head.
-    apply Permutation_app_comm.
+    unfold src_is. simpl. rewrite Hs, Nat.eqb_refl. simpl.
+    rewrite <- !app_assoc. apply Permutation_app_head. apply Permutation_app_comm.
   - simpl in Hex. specialize (IH Hex). destruct (src_is p e); simpl.
     + rewrite <- app_assoc. apply Permutation_app_head. exact IH.
     + exact IH.
@@ -898,8 +896,8 @@ Proof.
   intros d p c m. unfold edge_added, out_motifs. rewrite out_edges_filter.
   destruct (has_edge d p c) eqn:Eh.
   - apply add_motif_out_motifs. exact Eh.
-  - rewrite filter_app. simpl. rewrite Nat.eqb_refl.
-    rewrite flat_map_app. simpl. rewrite app_nil_r. apply Permutation_refl.
+  - rewrite filter_app. unfold src_is at 2. simpl. rewrite Nat.eqb_refl.
+    rewrite flat_map_app. simpl. apply Permutation_refl.
 Qed.
 
 Lemma sd_edges_ensure_child : forall N d p m,
